@@ -9,7 +9,7 @@ folding flag and labels.  *Reversing every axis of a C-ordered array is reversin
 (`mirrorFlat N k = N-1-k`, proved equal to the per-axis reversal in Lemmas/Fold.lean), and
 `_total_per_entry` at flat index `k` is the digit sum of `k` in the mixed radix given by the shape.
 
-The pointwise formulas (`fold_outData`, `fold_outMask`, `unfold_*`, `misidCoef*`, `foldingRefused`,
+The pointwise formulas (`fold_outData`, `fold_outMask`, `unfold_*`, `misidExpr`, `foldingRefused`,
 `binop*`, `cornerFlat`, `autofold_*`), the statement lists of the two operator templates (`binaryProgram`,
 `inplaceProgram`: folding check, `self.data.<op>(…)`, mask statements, in source order — executed here by the
 interpreter `runT` for every kind of operand) and the attribute rules of the numpy subclass hooks
@@ -327,14 +327,92 @@ def inplaceSelfAfter (name : String) (S : Spec) (o : Operand) : Option Spec :=
   | .raise _ st => some st.self
   | .done st => some st.self
 
-/-- `Numerics.apply_anc_state_misid(fs, p)`: `A*fs + B*reverse_array(fs)` evaluated with the templates -/
-def applyMisid (S : Spec) (p : Rat) : Res :=
-  match binop misidLeftMethod S (.scalar (misidCoefSelf p)) with
-  | .ok A =>
-    match binop misidLeftMethod (reverseSpec S) (.scalar (misidCoefMirror p)) with
-    | .ok B => binop misidSumMethod A (.spectrum B)
+/-! ### ancestral misidentification: interpreter of the generated expression `Gen.Fold.misidExpr` -/
+
+/-- what a sub-expression of `apply_anc_state_misid` evaluates to -/
+inductive MVal where
+  | spec (S : Spec)             -- a Spectrum
+  | arr (d : Array Rat)         -- a plain ndarray (C-order data; no mask, no attributes)
+  | num (c : Rat)               -- a Python / numpy scalar
+deriving Repr
+
+inductive MRes where
+  | ok (v : MVal)
+  | raise (what : String)
+  | undefined (why : String)
+deriving Repr
+
+def MRes.ofRes : Res → MRes
+  | .ok S => .ok (.spec S)
+  | .raise w => .raise w
+  | .undefined w => .undefined w
+
+inductive MOp where | add | sub | mul
+deriving Repr, DecidableEq
+
+/-- the Spectrum method Python calls when the LEFT operand is the Spectrum / when only the RIGHT one is
+    (a float, and an ndarray — lower `__array_priority__` — both defer to the reflected method) -/
+def MOp.method : MOp → String
+  | .add => "__add__" | .sub => "__sub__" | .mul => "__mul__"
+def MOp.reflected : MOp → String
+  | .add => "__radd__" | .sub => "__rsub__" | .mul => "__rmul__"
+def MOp.rat : MOp → Rat → Rat → Rat
+  | .add, a, b => a + b | .sub, a, b => a - b | .mul, a, b => a * b
+
+/-- `a <op> b`: Python's dispatch on the kinds of the operands -/
+def evalBin (op : MOp) : MVal → MVal → MRes
+  | .spec A, .spec B => .ofRes (binop op.method A (.spectrum B))
+  | .spec A, .arr d => .ofRes (binop op.method A (.plain d))
+  | .spec A, .num c => .ofRes (binop op.method A (.scalar c))
+  | .arr d, .spec B => .ofRes (binop op.reflected B (.plain d))
+  | .num c, .spec B => .ofRes (binop op.reflected B (.scalar c))
+  | .arr d, .arr e => if d.size = e.size then .ok (.arr (tabulate d.size fun k => op.rat (d.getD k 0) (e.getD k 0)))
+                      else .undefined "shape"
+  | .arr d, .num c => .ok (.arr (tabulate d.size fun k => op.rat (d.getD k 0) c))
+  | .num c, .arr e => .ok (.arr (tabulate e.size fun k => op.rat c (e.getD k 0)))
+  | .num c, .num c' => .ok (.num (op.rat c c'))
+
+def evalM (p : Rat) (S : Spec) : MExpr → MRes
+  | .fs => .ok (.spec S)
+  | .scal f => .ok (.num (f p))
+  | .getdata e =>
+    match evalM p S e with
+    | .ok (.spec A) => .ok (.arr (tabulate A.N fun k => A.x k))
+    | .ok (.arr d) => .ok (.arr d)
+    | .ok (.num _) => .undefined "getdata-of-scalar"
     | r => r
-  | r => r
+  | .rev e =>
+    match evalM p S e with
+    | .ok (.spec A) => .ok (.spec (reverseSpec A))
+    | .ok (.arr d) => .ok (.arr (tabulate d.size fun k => d.getD (mirrorFlat d.size k) 0))
+    | .ok (.num _) => .undefined "reverse-of-scalar"
+    | r => r
+  | .add a b =>
+    match evalM p S a with
+    | .ok va => match evalM p S b with
+      | .ok vb => evalBin .add va vb
+      | r => r
+    | r => r
+  | .sub a b =>
+    match evalM p S a with
+    | .ok va => match evalM p S b with
+      | .ok vb => evalBin .sub va vb
+      | r => r
+    | r => r
+  | .mul a b =>
+    match evalM p S a with
+    | .ok va => match evalM p S b with
+      | .ok vb => evalBin .mul va vb
+      | r => r
+    | r => r
+
+/-- `Numerics.apply_anc_state_misid(fs, p)`: the generated expression, evaluated with the templates -/
+def applyMisid (S : Spec) (p : Rat) : Res :=
+  match evalM p S misidExpr with
+  | .ok (.spec R) => .ok R
+  | .ok _ => .undefined "not-a-spectrum"
+  | .raise w => .raise w
+  | .undefined w => .undefined w
 
 /-! ### slicing -/
 
